@@ -26,10 +26,13 @@ enum Ctx { VASSIGN = 0,  // R(d) = A(v)          view assigned into a view of th
            FADD = 12,    // r += A(v)
            FEXPR = 13,   // r = 2*A(v) - C
            EVAL = 14,    // r = evaluate(A(v))           (compile-time views only: result_type has the view's extents)
-           NCTX = 15 };
+           CFADD = 15,   // r += cA(v)                   const parent through the flat vector reader
+           CFEXPR = 16,  // r = 2*cA(v) - C              const parent inside an expression
+           CFASSIGN = 17,// r = cA(v)
+           NCTX = 18 };
 static inline const char* ctx_name(int c) {
     static const char* n[] = {"vassign", "vcassign", "vadd", "vplus", "vmul", "vneg", "sum", "shape", "ctor", "cctor", "ctorx",
-                              "fassign", "fadd", "fexpr", "eval"};
+                              "fassign", "fadd", "fexpr", "eval", "cfadd", "cfexpr", "cfassign"};
     return c >= 0 && c < NCTX ? n[c] : "?";
 }
 
@@ -87,6 +90,9 @@ template <class T, size_t... D, class... K> struct ThF<T, Dims<D...>, K...> {
     static FASTOR_INLINE void run(CT<FADD>, const Args<T>& a)    { R(a) += src(A(a), a, IS()); }
     static FASTOR_INLINE void run(CT<FEXPR>, const Args<T>& a)   { R(a) = T(2) * src(A(a), a, IS()) - C(a); }
     static FASTOR_INLINE void run(CT<EVAL>, const Args<T>& a)    { R(a) = evaluate(src(A(a), a, IS())); }
+    static FASTOR_INLINE void run(CT<CFADD>, const Args<T>& a)   { R(a) += csrc(A(a), a, IS()); }
+    static FASTOR_INLINE void run(CT<CFEXPR>, const Args<T>& a)  { R(a) = T(2) * csrc(A(a), a, IS()) - C(a); }
+    static FASTOR_INLINE void run(CT<CFASSIGN>, const Args<T>& a){ R(a) = csrc(A(a), a, IS()); }
     static constexpr size_t sizeofR() { return sizeof(TR); }
 };
 
@@ -191,8 +197,8 @@ template <class T> struct Driver {
                 const T v = A0[(size_t)sel.idx[(size_t)k]];
                 switch (j.ctx) {
                     case CTORX: expR[(size_t)k] = v + Cd[k]; break;
-                    case FADD: expR[(size_t)k] = R0[(size_t)k] + v; break;
-                    case FEXPR: expR[(size_t)k] = T(2) * v - Cd[k]; break;
+                    case FADD: case CFADD: expR[(size_t)k] = R0[(size_t)k] + v; break;
+                    case FEXPR: case CFEXPR: expR[(size_t)k] = T(2) * v - Cd[k]; break;
                     default: expR[(size_t)k] = v; break;
                 }
             }
